@@ -139,8 +139,8 @@ def run(ctx):
                          "positions adjacent to every boundary computed with exact rationals (ceil(S_i*2^32/T) + {-2..2}), 0, "
                          "2^32-1 and random ones, with binning.deterministic_proba substituted; plus compiled single-return "
                          "experiments on real unit ids; distinct = (weights, position)")
-    ctx.assumptions.append("binary64 refinement: the float theorems are conditional on the concrete Dbl.round being monotone "
-                           "(validated bit-for-bit by the cum/choice correspondence, not proved); integer weights with T < 2^21 are unconditional")
+    ctx.assumptions.append("the model type Dbl with its round-to-nearest-even (proved monotone, idempotent, RSpec: Proofs/DblRound.lean) IS CPython's "
+                           "binary64 arithmetic: tied bit-for-bit by the cum/choice correspondence, not proved; integer weights with T < 2^21 do not need it")
     run_vectors(ctx, n)
     run_compiled(ctx, max(20, n // 4))
     run_compiled_at_positions(ctx, max(30, n // 3))
